@@ -23,8 +23,16 @@ LEVEL = 'model_checking'
 
 
 class LockWorld:
-    def __init__(self, nclients, max_conn=2):
+    # the free-text label a client sends with its acquire request
+    NAMES = {
+        'distinct': lambda i: f'client{i}',
+        'same': lambda i: 'load: t.a',              # every client uses one label
+        'falsy': lambda i: ('', None, 'x')[i % 3],  # empty / missing labels are legal
+    }
+
+    def __init__(self, nclients, max_conn=2, names='distinct'):
         import dawgie.context
+        self.names = names
         self.max_conn = max_conn
         import dawgie.db.shelve.comms as comms
         from . import world
@@ -132,7 +140,7 @@ class LockWorld:
             if ev[0] == 'acq':
                 c = self.new_conn(ev[1])
                 before[id(c['p'])] = False
-                self.send(c, Func.acquire, f'client{ev[1]}')
+                self.send(c, Func.acquire, self.NAMES[self.names](ev[1]))
             elif ev[0] == 'rel':
                 c = self.conns[ev[1]]
                 c['released'] = True
@@ -238,8 +246,9 @@ def grant_within_period(w, report):
 
 
 def job(args):
-    tier, seed, nclients, cap, max_conn = args
-    w = LockWorld(nclients, max_conn)
+    tier, seed, nclients, cap, max_conn = args[:5]
+    names = args[5] if len(args) > 5 else 'distinct'
+    w = LockWorld(nclients, max_conn, names)
     try:
         def build(hist, report=None, upto=None):
             w.reset()
@@ -271,14 +280,14 @@ def job(args):
             if grant_within_period(w, lambda s, t: found.append((s, t))):
                 liveness_checked += 1
             for s, t in found:
-                v = viol.setdefault(s, {'what': t, 'replay': {'clients': nclients, 'history': [list(e) for e in h]}, 'count': 0})
+                v = viol.setdefault(s, {'what': t, 'replay': {'clients': nclients, 'names': names, 'history': [list(e) for e in h]}, 'count': 0})
                 v['count'] += 1
             for ev in evs:
                 found = []
                 nk = build(h + [ev], lambda s, t: found.append((s, t)))
                 transitions += 1
                 for s, t in found:
-                    v = viol.setdefault(s, {'what': t, 'replay': {'clients': nclients,
+                    v = viol.setdefault(s, {'what': t, 'replay': {'clients': nclients, 'names': names,
                                                                    'history': [list(e) for e in h + [ev]]}, 'count': 0})
                     v['count'] += 1
                 if nk not in parent:
@@ -289,7 +298,7 @@ def job(args):
                     hist_of[nk] = h + [ev]
                     frontier.append(nk)
         # determinism: replay a few histories twice
-        return {'clients': nclients, 'max_conn': max_conn, 'states': len(parent), 'transitions': transitions,
+        return {'clients': nclients, 'names': names, 'max_conn': max_conn, 'states': len(parent), 'transitions': transitions,
                 'violations': viol, 'liveness_probes': liveness_checked, 'capped': capped,
                 'digest': common.digest(sorted(repr(k) for k in parent))}
     finally:
@@ -304,6 +313,10 @@ def run(ctx):
     else:
         jobs.append((ctx.tier, ctx.seed, 2, None, 3))
         jobs.append((ctx.tier, ctx.seed, 3, 400000, 2))
+    # the same spaces with all clients under one label and with empty labels
+    for names in ('same', 'falsy'):
+        jobs.append((ctx.tier, ctx.seed, 2, None, 2, names))
+        jobs.append((ctx.tier, ctx.seed, 3, None, 1, names))
     states = transitions = 0
     per = []
     for r in common.pmap(job, jobs):
@@ -317,7 +330,7 @@ def run(ctx):
                 mine['count'] += v['count']
         if r['capped']:
             ctx.cap(f'{r["clients"]} clients: state cap reached ({r["states"]} states explored breadth first)')
-        per.append({k: r[k] for k in ('clients', 'max_conn', 'states', 'transitions', 'liveness_probes', 'digest', 'capped')})
+        per.append({k: r[k] for k in ('clients', 'names', 'max_conn', 'states', 'transitions', 'liveness_probes', 'digest', 'capped')})
         ctx.sample({k: r[k] for k in ('clients', 'states', 'transitions')})
     ctx.assumptions += [
         'clients send release only after being told they hold the lock (as comms.acquire/release and Interface do)',
@@ -331,7 +344,7 @@ def run(ctx):
 
 def replay(data):
     r = data['replay']
-    w = LockWorld(r['clients'], 9)
+    w = LockWorld(r['clients'], 9, r.get('names', 'distinct'))
     try:
         w.reset()
         hits = []
